@@ -455,3 +455,94 @@ def s_no_alias(tier):
                 for tag, B in (("zero offset", np.zeros(3)), ("non-zero offset", rng.normal(size=3))):
                     check(f"rod[{interp}].r_OP (xi={xi}, {tag})", lambda qe_, B_: rod.r_OP(0.0, qe_, xi, B_), [qe, B], mutable=None if tag == "non-zero offset" else [0])
     return out
+
+
+@static("C26", "pure-functions")
+def s_pure_functions(tier):
+    """the module-level mathematics (rotations, algebra, prox) is used as pure functions by every contract: a memo that any
+    of them might carry (lru_cache on an array's identity, a module-level 'last argument' shortcut) is a cache in the sense
+    of this property.  Every function whose parameters this sweep knows how to generate is called, its array arguments are
+    overwritten in place, and it is called again with the same objects: the answer must be the one for copies of the new
+    values, and the arguments must not have been modified by the call."""
+    import inspect
+
+    import cardillo.math.algebra as alg
+    import cardillo.math.prox as prox
+    import cardillo.math.rotations as rot
+
+    rng = np.random.default_rng(11)
+
+    def rotm():
+        return rot.Exp_SO3(rng.normal(size=3) * 0.8)
+
+    def se3():
+        H = np.eye(4)
+        H[:3, :3], H[:3, 3] = rotm(), rng.normal(size=3)
+        return H
+
+    GEN = {
+        "psi": lambda: rng.normal(size=3) * 0.7, "psi_dot": lambda: rng.normal(size=3), "h": lambda: np.concatenate([rng.normal(size=3), rng.normal(size=3) * 0.7]),
+        "P": lambda: rng.normal(size=4), "Q": lambda: rng.normal(size=4), "A": rotm, "R": rotm, "A_IB": rotm, "H": se3, "r_OP": lambda: rng.normal(size=3),
+        "a": lambda: rng.normal(size=3), "b": lambda: rng.normal(size=3), "J_a": lambda: rng.normal(size=3), "J_b": lambda: rng.normal(size=3), "axis": lambda: rng.normal(size=3),
+        "angle": lambda: float(rng.uniform(-2, 2)), "x": lambda: rng.normal(size=3), "y": lambda: rng.normal(size=3),
+    }
+    SKIP = {"LeviCivita3", "ei", "is_positive_definite", "skew2ax", "atan2", "sign"}  # integer or scalar arguments / arguments with structure (skew2ax is swept separately below)
+    out, unknown = [], []
+
+    def same(x, y):
+        x, y = np.asarray(x, dtype=float), np.asarray(y, dtype=float)
+        return x.shape == y.shape and bool(np.array_equal(x, y, equal_nan=True))
+
+    def sweep(label, fn, args):
+        before = [a.copy() if isinstance(a, np.ndarray) else a for a in args]
+        first = fn(*args)
+        untouched = all(same(a, b) for a, b in zip(args, before) if isinstance(a, np.ndarray))
+        for a in args:
+            if isinstance(a, np.ndarray):
+                new = GEN_FOR[id(a)]()
+                a[...] = new
+        again = fn(*args)
+        fresh = fn(*[a.copy() if isinstance(a, np.ndarray) else a for a in args])
+        ok = same(again, fresh)
+        out.append(dict(name=f"{label}: second call with the same array objects overwritten in place evaluates the new values", ok=ok, backend="native-execution (second call on overwritten arguments vs copies)", show="equal" if ok else f"stale: {same(again, first)}", detail="the second call does not belong to the current contents of its arguments", replay=None if ok else {"function": label, "stale": bool(same(again, first))}))
+        out.append(dict(name=f"{label}: the call does not modify its arguments", ok=untouched, backend="native-execution", show=str(untouched), detail="an argument array was written to", replay=None if untouched else {"function": label}))
+
+    GEN_FOR = {}
+    for mod in (rot, alg):
+        for name, fn in inspect.getmembers(mod, inspect.isfunction):
+            if fn.__module__ != mod.__name__ or name in SKIP:
+                continue
+            params = [p for p in inspect.signature(fn).parameters.values()]
+            req = [p.name for p in params if p.default is inspect.Parameter.empty]
+            if not req:
+                continue
+            if not all(p in GEN for p in req):
+                unknown.append(f"{mod.__name__.split('.')[-1]}.{name}({', '.join(req)})")
+                continue
+            with np.errstate(all="ignore"):
+                args = []
+                for p in req:
+                    a = GEN[p]()
+                    if isinstance(a, np.ndarray):
+                        GEN_FOR[id(a)] = GEN[p]
+                    args.append(a)
+                try:
+                    sweep(f"{mod.__name__.split('.')[-1]}.{name}", fn, args)
+                except Exception as e:  # noqa: BLE001  (a function this sweep cannot call is listed, not failed)
+                    unknown.append(f"{mod.__name__.split('.')[-1]}.{name}: {type(e).__name__}")
+    A = rng.normal(size=(3, 3))
+    Askew = A - A.T
+    GEN_FOR[id(Askew)] = lambda: (lambda B: B - B.T)(rng.normal(size=(3, 3)))
+    sweep("algebra.skew2ax", alg.skew2ax, [Askew])
+    for cname, obj, dim in (("NegativeOrthant", prox.NegativeOrthant(), 3), ("Sphere", prox.Sphere(0.4), 2)):
+        x = rng.normal(size=dim)
+        GEN_FOR[id(x)] = lambda dim=dim: rng.normal(size=dim)
+        if cname == "Sphere":
+            try:
+                sweep("prox.Sphere.prox", lambda x_, z_: obj.prox(x_, z_), [x, 1.7])
+            except Exception as e:  # noqa: BLE001
+                unknown.append(f"prox.Sphere.prox: {type(e).__name__}: {e}")
+        else:
+            sweep("prox.NegativeOrthant.prox", lambda x_: obj.prox(x_), [x])
+    out.append(dict(name="vacuity guard: the sweep reaches at least 30 functions", ok=len(out) >= 60, backend="native-execution", show=f"{len(out) // 2} functions swept; not swept: {unknown}"))
+    return out
